@@ -561,7 +561,7 @@ func TestLogLifecycle(t *testing.T) {
 		Property: "C15", Check: "log_lifecycle",
 		Rule: "generated op lists (1-40 ops: Logger / Emit through the logger obtained at construction, through loggers obtained earlier or right now / ForceFlush / Shutdown with live or already-cancelled contexts, repeated) on a LoggerProvider with 0-4 processors drawn from recording processors (one failing), SimpleProcessor and BatchProcessor around a recording exporter and around nil; " +
 			"non-trivial = at least one processor, a Shutdown with a live context returned nil and an Emit follows it; distinct = distinct case encodings",
-		Quick: 3000, Thorough: 40000,
+		Quick: 2500, Thorough: 40000,
 		Gen: genLogSeq, Run: runLogSeq,
 		CaseTimeout: 30 * time.Second,
 	})
